@@ -39,12 +39,13 @@ class Plain(Tree):
 
 
 class Counter(Tree):
-    """resolvable counter: merged = committed + (new - old)"""
+    """resolvable counter: merged = committed + (new - old), never below zero (the model works in
+    natural numbers with truncated subtraction)"""
     CID = 1
 
     def _p_resolveConflict(self, old, committed, new):
         _log(self.CID, old, committed, new)
-        return committed + new - old
+        return max(committed + new - old, 0)
 
 
 class Raises(Tree):
